@@ -642,6 +642,57 @@ theorem hasAttr_good {s : Schema} {w : World} {e : Expr} {a : String} {caps : Ca
               · cases hi
           rw [this]; rfl
 
+/-! ### equality -/
+
+theorem eqType_bool (env : RequestEnv) (a b : Expr) (τa τb : CedarType) : ∃ bt, eqType env a b τa τb = .bool bt := by
+  unfold eqType
+  split
+  · exact ⟨_, rfl⟩
+  · split
+    · exact ⟨_, rfl⟩
+    · exact ⟨_, rfl⟩
+
+theorem asLiteral_eval {s : Schema} {env : RequestEnv} {w : World} {a : Expr} {la : Prim} (henv : EnvMatches s env w.q)
+    (h : asLiteral env a = some la) : w.eval a = .ok (.prim la) := by
+  unfold asLiteral at h
+  split at h
+  · cases h; simp [evaluate]
+  · cases h; simp [evaluate, henv.2.1]
+  · cases h
+
+theorem eq_good {s : Schema} {env : RequestEnv} {w : World} {a b : Expr} {τa τb : CedarType} {ca cb : Capabilities}
+    (henv : EnvMatches s env w.q) (sa : Sound w a τa ca) (sb : Sound w b τb cb)
+    (hma : τa.mono = true) (hmb : τb.mono = true) : Good w (.binaryApp .eq a b) (eqType env a b τa τb) [] := by
+  rcases sa with ⟨err, he, hp⟩ | ⟨v1, hv1, hi1, _⟩
+  · exact Good.err (by simp [evaluate, he]) hp
+  · rcases sb with ⟨err, he, hp⟩ | ⟨v2, hv2, hi2, _⟩
+    · exact Good.err (by simp [evaluate, hv1, he]) hp
+    · refine Good.value (v := .prim (.bool (Value.beq v1 v2))) (by simp [evaluate, hv1, hv2, applyBinary]) (inst_bool_iff.mpr ?_)
+      unfold eqType
+      split
+      · rename_i hdis
+        cases τa <;> cases τb <;> simp only [typesDisjoint, Bool.false_eq_true] at hdis
+        rename_i l0 l1
+        obtain ⟨T0, rfl⟩ := mono_entity hma
+        obtain ⟨T1, rfl⟩ := mono_entity hmb
+        obtain ⟨u1, rfl, h1⟩ := inst_entity_single hi1
+        obtain ⟨u2, rfl, h2⟩ := inst_entity_single hi2
+        have hne : u1 ≠ u2 := by
+          intro h; subst h; subst h1; subst h2
+          simp at hdis
+        simp [Value.beq, boolInst, hne]
+      · split
+        · rename_i la lb hla hlb
+          have e1 := asLiteral_eval henv hla
+          have e2 := asLiteral_eval henv hlb
+          rw [hv1] at e1; rw [hv2] at e2
+          cases e1; cases e2
+          by_cases hl : la = lb
+          · subst hl; simp [Value.beq, boolInst]
+          · simp [Value.beq, boolInst, hl]
+        · simp [boolInst, boolT]
+
+
 /-! ### the induction -/
 
 theorem isFalse_eq {τ : CedarType} (h : τ.isFalse = true) : τ = .bool .ff := by
@@ -706,8 +757,22 @@ theorem flat_typeOf {m : ValidationMode} {s : Schema} {env : RequestEnv} {e : Ex
     cases op <;> (try simp at hf)
     all_goals
       simp only [typeOf] at h
-      obtain ⟨_, _, _, _, _, _, hk⟩ := both_ok h
-      simp only [ok, Except.ok.injEq, Prod.mk.injEq] at hk; rw [← hk.1]; rfl
+      obtain ⟨τa', _, τb', _, _, _, hk⟩ := both_ok h
+      first
+        | (simp only [ok, Except.ok.injEq, Prod.mk.injEq] at hk; rw [← hk.1]; rfl)
+        | (split at hk
+           · cases hk
+           · simp only [ok, Except.ok.injEq, Prod.mk.injEq] at hk
+             obtain ⟨bt, hbt⟩ := eqType_bool env a b τa' τb'
+             rw [← hk.1, hbt]; rfl)
+  case like e pat =>
+    simp only [typeOf] at h
+    split at h <;> simp only [ok, Except.ok.injEq, Prod.mk.injEq, reduceCtorEq] at h <;> (rw [← h.1]; rfl)
+  case is e ty =>
+    simp only [typeOf] at h
+    split at h <;> simp only [ok, Except.ok.injEq, Prod.mk.injEq, reduceCtorEq] at h
+    · rw [← h.1]; split; rfl; split <;> rfl
+    · rw [← h.1]; rfl
   case hasAttr e a =>
     simp only [typeOf] at h
     cases hE : expectOneOf (typeOf m s env e caps) [.anyEntity, anyRecord] with
@@ -848,8 +913,19 @@ theorem typeOf_mono {m : ValidationMode} {s : Schema} {env : RequestEnv} {q : Re
       split at h <;> simp only [ok, Except.ok.injEq, Prod.mk.injEq, reduceCtorEq] at h <;> (rw [← h.1]; rfl)
   | .binaryApp op a b, hf, caps, τ, c', h => by
     simp only [InFragment, Bool.and_eq_true, Bool.or_eq_true, beq_iff_eq] at hf
-    rcases hf.1.1 with (rfl | rfl) | rfl <;> simp only [typeOf] at h <;> obtain ⟨_, _, _, _, _, _, hk⟩ := both_ok h <;>
-      simp only [ok, Except.ok.injEq, Prod.mk.injEq] at hk <;> (rw [← hk.1]; rfl)
+    rcases hf.1.1 with ((rfl | rfl) | rfl) | rfl
+    · simp only [typeOf] at h; obtain ⟨_, _, _, _, _, _, hk⟩ := both_ok h
+      simp only [ok, Except.ok.injEq, Prod.mk.injEq] at hk; rw [← hk.1]; rfl
+    · simp only [typeOf] at h; obtain ⟨_, _, _, _, _, _, hk⟩ := both_ok h
+      simp only [ok, Except.ok.injEq, Prod.mk.injEq] at hk; rw [← hk.1]; rfl
+    · simp only [typeOf] at h; obtain ⟨_, _, _, _, _, _, hk⟩ := both_ok h
+      simp only [ok, Except.ok.injEq, Prod.mk.injEq] at hk; rw [← hk.1]; rfl
+    · simp only [typeOf] at h; obtain ⟨τa', _, τb', _, _, _, hk⟩ := both_ok h
+      split at hk
+      · cases hk
+      · simp only [ok, Except.ok.injEq, Prod.mk.injEq] at hk
+        obtain ⟨bt, hbt⟩ := eqType_bool env a b τa' τb'
+        rw [← hk.1, hbt]; rfl
   | .getAttr e a, hf, caps, τ, c', h => by
     simp only [InFragment] at hf
     simp only [typeOf] at h
@@ -889,8 +965,15 @@ theorem typeOf_mono {m : ValidationMode} {s : Schema} {env : RequestEnv} {q : Re
   | .slot _, hf, _, _, _, _ => by simp [InFragment] at hf
   | .unknown _ _, hf, _, _, _, _ => by simp [InFragment] at hf
   | .call _ _, hf, _, _, _, _ => by simp [InFragment] at hf
-  | .like _ _, hf, _, _, _, _ => by simp [InFragment] at hf
-  | .is _ _, hf, _, _, _, _ => by simp [InFragment] at hf
+  | .like e pat, _, caps, τ, c', h => by
+    have hflat := flat_typeOf (e := .like e pat) rfl h
+    simp only [typeOf] at h
+    split at h <;> simp only [ok, Except.ok.injEq, Prod.mk.injEq, reduceCtorEq] at h <;> (rw [← h.1]; rfl)
+  | .is e ty, _, caps, τ, c', h => by
+    simp only [typeOf] at h
+    split at h <;> simp only [ok, Except.ok.injEq, Prod.mk.injEq, reduceCtorEq] at h
+    · rw [← h.1]; split; rfl; split <;> rfl
+    · rw [← h.1]; rfl
   | .set _, hf, _, _, _, _ => by simp [InFragment] at hf
   | .record _, hf, _, _, _, _ => by simp [InFragment] at hf
 
@@ -1150,15 +1233,23 @@ theorem typeOf_sound_aux {m : ValidationMode} {s : Schema} {env : RequestEnv} {w
     have iha := typeOf_sound_aux (m := m) hWF henv hreq hst a hf.1.2
     have ihb := typeOf_sound_aux (m := m) hWF henv hreq hst b hf.2
     have hop := hf.1.1
-    have key : ∃ τa ca τb cb, expectOneOf (typeOf m s env a caps) [.long] = .ok (τa, ca) ∧
-        expectOneOf (typeOf m s env b caps) [.long] = .ok (τb, cb) ∧ τ = .long ∧ c' = [] := by
-      rcases hop with (rfl | rfl) | rfl <;> simp only [typeOf] at h <;> obtain ⟨τa, ca, τb, cb, h1, h2, hk⟩ := both_ok h <;>
-        simp only [ok, Except.ok.injEq, Prod.mk.injEq] at hk <;> exact ⟨τa, ca, τb, cb, h1, h2, hk.1.symm, hk.2.symm⟩
-    obtain ⟨τa, ca, τb, cb, hA, hB, rfl, rfl⟩ := key
-    obtain ⟨hta, hsa⟩ := expectOneOf_ok hA
-    obtain ⟨htb, hsb⟩ := expectOneOf_ok hB
-    exact arith_sound (by rcases hop with (h | h) | h <;> simp [h]) (iha caps τa ca hta hc).1 (subtype_long hsa)
-      (ihb caps τb cb htb hc).1 (subtype_long hsb)
+    rcases hop with hop | rfl
+    · have key : ∃ τa ca τb cb, expectOneOf (typeOf m s env a caps) [.long] = .ok (τa, ca) ∧
+          expectOneOf (typeOf m s env b caps) [.long] = .ok (τb, cb) ∧ τ = .long ∧ c' = [] := by
+        rcases hop with (rfl | rfl) | rfl <;> simp only [typeOf] at h <;> obtain ⟨τa, ca, τb, cb, h1, h2, hk⟩ := both_ok h <;>
+          simp only [ok, Except.ok.injEq, Prod.mk.injEq] at hk <;> exact ⟨τa, ca, τb, cb, h1, h2, hk.1.symm, hk.2.symm⟩
+      obtain ⟨τa, ca, τb, cb, hA, hB, rfl, rfl⟩ := key
+      obtain ⟨hta, hsa⟩ := expectOneOf_ok hA
+      obtain ⟨htb, hsb⟩ := expectOneOf_ok hB
+      exact arith_sound (by rcases hop with (h | h) | h <;> simp [h]) (iha caps τa ca hta hc).1 (subtype_long hsa)
+        (ihb caps τb cb htb hc).1 (subtype_long hsb)
+    · simp only [typeOf] at h
+      obtain ⟨τa, ca, τb, cb, hta, htb, hk⟩ := both_ok h
+      split at hk
+      · cases hk
+      · simp only [ok, Except.ok.injEq, Prod.mk.injEq] at hk; obtain ⟨rfl, rfl⟩ := hk
+        exact eq_good henv (iha caps τa ca hta hc).1 (ihb caps τb cb htb hc).1
+          (typeOf_mono hWF henv a hf.1.2 caps τa ca hta) (typeOf_mono hWF henv b hf.2 caps τb cb htb)
   | .getAttr e a, hf, caps, τ, c', h, hc => by
     simp only [InFragment] at hf
     have ihe := typeOf_sound_aux (m := m) hWF henv hreq hst e hf
@@ -1219,8 +1310,46 @@ theorem typeOf_sound_aux {m : ValidationMode} {s : Schema} {env : RequestEnv} {w
   | .slot _, hf, _, _, _, _, _ => by simp [InFragment] at hf
   | .unknown _ _, hf, _, _, _, _, _ => by simp [InFragment] at hf
   | .call _ _, hf, _, _, _, _, _ => by simp [InFragment] at hf
-  | .like _ _, hf, _, _, _, _, _ => by simp [InFragment] at hf
-  | .is _ _, hf, _, _, _, _, _ => by simp [InFragment] at hf
+  | .like e pat, hf, caps, τ, c', h, hc => by
+    simp only [InFragment] at hf
+    have ihe := typeOf_sound_aux (m := m) hWF henv hreq hst e hf
+    simp only [typeOf] at h
+    cases hE : expectOneOf (typeOf m s env e caps) [.string] with
+    | error err => rw [hE] at h; cases h
+    | ok pe =>
+      obtain ⟨τe, ce⟩ := pe
+      rw [hE] at h
+      simp only [ok, Except.ok.injEq, Prod.mk.injEq] at h; obtain ⟨rfl, rfl⟩ := h
+      obtain ⟨hte, hsub⟩ := expectOneOf_ok hE
+      rcases (ihe caps τe ce hte hc).1 with ⟨err, he, hp⟩ | ⟨v, hv, hi, _⟩
+      · exact Good.err (by simp [evaluate, he]) hp
+      · obtain ⟨str, rfl⟩ := inst_string hi (subtype_string hsub)
+        exact Good.value (v := .prim (.bool (wm pat str.toList))) (by simp [evaluate, hv, Value.asString]) (.anyBool _)
+  | .is e ty, hf, caps, τ, c', h, hc => by
+    simp only [InFragment] at hf
+    have ihe := typeOf_sound_aux (m := m) hWF henv hreq hst e hf
+    simp only [typeOf] at h
+    cases hE : expectOneOf (typeOf m s env e caps) [.anyEntity] with
+    | error err => rw [hE] at h; cases h
+    | ok pe =>
+      obtain ⟨τe, ce⟩ := pe
+      rw [hE] at h
+      obtain ⟨hte, hsub⟩ := expectOneOf_ok hE
+      have hme := typeOf_mono hWF henv e hf caps τe ce hte
+      rcases subtype_anyEntity hsub with rfl | rfl | ⟨l, rfl⟩
+      · simp [CedarType.mono] at hme
+      · simp [CedarType.mono] at hme
+      · obtain ⟨T, rfl⟩ := mono_entity hme
+        simp only [ok, Except.ok.injEq, Prod.mk.injEq] at h; obtain ⟨rfl, rfl⟩ := h
+        rcases (ihe caps _ ce hte hc).1 with ⟨err, he, hp⟩ | ⟨v, hv, hi, _⟩
+        · exact ⟨Or.inl ⟨err, by simp [evaluate, he], hp⟩, fun _ => capsHold_nil w⟩
+        · obtain ⟨u, rfl, hT⟩ := inst_entity_single hi
+          subst hT
+          refine ⟨Sound.of_bool (b := u.ty == ty) (by simp [evaluate, hv, Value.asEntity]) ?_ (fun _ => capsHold_nil w),
+            fun _ => capsHold_nil w⟩
+          by_cases hty : u.ty = ty
+          · subst hty; simp [boolInst]
+          · simp [boolInst, hty, Ne.symm hty]
   | .set _, hf, _, _, _, _, _ => by simp [InFragment] at hf
   | .record _, hf, _, _, _, _, _ => by simp [InFragment] at hf
 
